@@ -9,8 +9,17 @@
 //!   * bounded  - all UTF-8 strings of at most N bytes (N is part of the harness name and of
 //!     `bound_text`); never counted as a proof for all inputs.
 //! Unwinding assertions are kept ON: a too small `#[kani::unwind]` makes the harness fail.
+//!
+//! What CBMC could NOT do on this code (see the report / harnesses.json bound_text):
+//!   * `extract_word_at_position`: the heap `Vec<(usize, char)>` read in loops makes CBMC exceed
+//!     16 GB already for strings of at most 2 bytes -> no harness.
+//!   * `format_docstring`: any symbolic byte in the input keeps CBMC in symbolic execution for more
+//!     than 15 minutes (even one symbolic byte in a fixed 9-byte layout) -> only the concrete
+//!     regression witnesses of `format_docstring_regression`.
+//!   * `find_function_name_position`: only with std's `str::find(&str)` (two-way searcher) and
+//!     `memchr` replaced by naive loops (`-Z stubbing`), and only for very short contents.
+#![cfg_attr(kani, feature(pattern))]
 #![allow(dead_code)]
-#![allow(unused_macros)]
 
 pub mod fixtures {
     #[path = "/repo/src/fixtures/types.rs"]
@@ -23,8 +32,7 @@ pub mod fixtures {
 #[cfg(kani)]
 mod harnesses {
     use crate::fixtures::string_utils::{
-        extract_word_at_position, find_function_name_position, format_docstring,
-        parameter_has_annotation,
+        find_function_name_position, format_docstring, parameter_has_annotation,
     };
     use crate::fixtures::types::FixtureScope;
 
@@ -98,9 +106,15 @@ mod harnesses {
     }
 
     #[kani::proof]
-    #[kani::unwind(10)]
-    fn utf8_model_agrees_n8() {
-        check_utf8_model::<8>();
+    #[kani::unwind(8)]
+    fn utf8_model_agrees_n6() {
+        check_utf8_model::<6>();
+    }
+
+    #[kani::proof]
+    #[kani::unwind(14)]
+    fn utf8_model_agrees_n12() {
+        check_utf8_model::<12>();
     }
 
     /// An arbitrary valid UTF-8 string of at most `N` bytes living in `buf`
@@ -113,54 +127,9 @@ mod harnesses {
         unsafe { std::str::from_utf8_unchecked(&buf[..len]) }
     }
 
-    /// An arbitrary string of at most `N` symbols over {'a', '\n', ' ', U+2003 (EM SPACE)}.
-    fn sym_str_alphabet<const N: usize>() -> String {
-        let len: usize = kani::any();
-        kani::assume(len <= N);
-        let mut s = String::new();
-        let mut i = 0;
-        while i < N {
-            if i < len {
-                let k: u8 = kani::any();
-                kani::assume(k < 4);
-                s.push(match k {
-                    0 => 'a',
-                    1 => '\n',
-                    2 => ' ',
-                    _ => '\u{2003}',
-                });
-            }
-            i += 1;
-        }
-        s
-    }
-
     fn is_ascii_ws(b: u8) -> bool {
         // the ASCII members of Unicode White_Space (what `str::trim_start` removes)
         b == b' ' || (0x09..=0x0d).contains(&b)
-    }
-
-    /// `needle` occurs in `hay` as a contiguous byte window (naive search, no std searcher).
-    fn is_substring(hay: &[u8], needle: &[u8]) -> bool {
-        if needle.len() > hay.len() {
-            return false;
-        }
-        let mut i = 0;
-        while i + needle.len() <= hay.len() {
-            let mut j = 0;
-            let mut ok = true;
-            while j < needle.len() {
-                if hay[i + j] != needle[j] {
-                    ok = false;
-                }
-                j += 1;
-            }
-            if ok {
-                return true;
-            }
-            i += 1;
-        }
-        false
     }
 
     fn rank(s: FixtureScope) -> u8 {
@@ -276,61 +245,123 @@ mod harnesses {
         }
     }
 
+    /// quick tier: all UTF-8 strings of at most 6 bytes
     #[kani::proof]
-    #[kani::unwind(8)]
-    fn param_annotation_no_panic() {
-        check_param_annotation::<4>();
+    #[kani::unwind(9)]
+    fn param_annotation_no_panic_q() {
+        check_param_annotation::<6>();
+    }
+
+    /// thorough tier: all UTF-8 strings of at most 12 bytes
+    #[kani::proof]
+    #[kani::unwind(15)]
+    fn param_annotation_no_panic_t() {
+        check_param_annotation::<12>();
     }
 
     // ------------------------------------------------------------------------------------
-    // 3. extract_word_at_position (bounded)
+    // std stubs (used with `-Z stubbing`; they replace std internals, never /repo code)
     // ------------------------------------------------------------------------------------
 
-    fn check_extract_word<const N: usize>() {
-        let buf: [u8; N] = kani::any();
-        let t = sym_str(&buf);
-        let character: usize = kani::any();
-        let r = extract_word_at_position(t, character);
-        if let Some(w) = &r {
-            assert!(!w.is_empty());
-            assert!(w.len() <= t.len());
-            assert!(is_substring(t.as_bytes(), w.as_bytes()));
-            for c in w.chars() {
-                assert!(c.is_alphanumeric() || c == '_');
+    /// Replaces `core::slice::memchr::memchr` (reached through `str::lines()`): same contract,
+    /// naive loop instead of the word-at-a-time implementation.
+    fn memchr_naive_stub(x: u8, text: &[u8]) -> Option<usize> {
+        let mut i = 0;
+        while i < text.len() {
+            if text[i] == x {
+                return Some(i);
+            }
+            i += 1;
+        }
+        None
+    }
+
+    /// First index at which `n` occurs in `h` as a contiguous window (None if it does not).
+    fn naive_find_bytes(h: &[u8], n: &[u8]) -> Option<usize> {
+        let mut i = 0;
+        while i <= h.len() {
+            if h.len() - i >= n.len() {
+                let mut j = 0;
+                let mut ok = true;
+                while j < n.len() {
+                    if h[i + j] != n[j] {
+                        ok = false;
+                    }
+                    j += 1;
+                }
+                if ok {
+                    return Some(i);
+                }
+            }
+            i += 1;
+        }
+        None
+    }
+
+    /// Replaces `str::find` for `&str` patterns (the only kind `find_function_name_position`
+    /// uses): leftmost occurrence by naive search instead of std's two-way searcher.  Any other
+    /// pattern kind fails the harness instead of being silently mis-modelled.
+    fn str_find_stub<P: std::str::pattern::Pattern>(hay: &str, pat: P) -> Option<usize> {
+        match pat.as_utf8_pattern() {
+            Some(std::str::pattern::Utf8Pattern::StringPattern(b)) => {
+                naive_find_bytes(hay.as_bytes(), b.as_bytes())
+            }
+            _ => {
+                assert!(false, "str_find_stub: only &str patterns are modelled");
+                None
             }
         }
-        std::mem::forget(r);
-    }
-
-    #[kani::proof]
-    #[kani::unwind(8)]
-    fn extract_word_no_panic() {
-        check_extract_word::<4>();
     }
 
     // ------------------------------------------------------------------------------------
-    // 4. find_function_name_position (bounded)
+    // 4. find_function_name_position (bounded, std `str::find`/`memchr` stubbed)
     // ------------------------------------------------------------------------------------
 
-    fn check_find_fn_name<const N: usize>() {
-        let buf: [u8; N] = kani::any();
-        let content = sym_str(&buf);
-        let nbuf: [u8; 3] = kani::any();
-        let name = sym_str(&nbuf);
-        let line: usize = kani::any();
+    fn check_find_fn_name(content: &str, line: usize, name: &str) {
         let (start, end) = find_function_name_position(content, line, name);
         assert!(start <= end);
         assert!(end - start == name.len());
     }
 
+    /// all UTF-8 contents of at most 3 bytes, all names of at most 3 bytes, all `line`.
+    /// (Too short to contain "def ": exercises the line lookup, the fallback search and the
+    /// default result.)
     #[kani::proof]
-    #[kani::unwind(8)]
-    fn find_fn_name_no_panic() {
-        check_find_fn_name::<4>();
+    #[kani::unwind(6)]
+    #[kani::stub(core::slice::memchr::memchr, memchr_naive_stub)]
+    #[kani::stub(str::find, str_find_stub)]
+    fn find_fn_name_no_panic_t() {
+        let buf: [u8; 3] = kani::any();
+        let content = sym_str(&buf);
+        let nbuf: [u8; 3] = kani::any();
+        let name = sym_str(&nbuf);
+        let line: usize = kani::any();
+        check_find_fn_name(content, line, name);
+    }
+
+    /// contents "def " + any UTF-8 string of at most 2 bytes, all names of at most 2 bytes, all
+    /// `line`: exercises the `def ` branch (`&line_content[def_pos + 4..]`,
+    /// `def_pos + 4 + name_pos`).
+    #[kani::proof]
+    #[kani::unwind(9)]
+    #[kani::stub(core::slice::memchr::memchr, memchr_naive_stub)]
+    #[kani::stub(str::find, str_find_stub)]
+    fn find_fn_name_defprefix_t() {
+        let tail: [u8; 2] = kani::any();
+        let buf: [u8; 6] = [b'd', b'e', b'f', b' ', tail[0], tail[1]];
+        let len: usize = kani::any();
+        kani::assume(len >= 4 && len <= 6);
+        kani::assume(utf8_valid(&buf[..len]));
+        // SAFETY: see sym_str
+        let content = unsafe { std::str::from_utf8_unchecked(&buf[..len]) };
+        let nbuf: [u8; 2] = kani::any();
+        let name = sym_str(&nbuf);
+        let line: usize = kani::any();
+        check_find_fn_name(content, line, name);
     }
 
     // ------------------------------------------------------------------------------------
-    // 5. format_docstring (bounded)
+    // 5. format_docstring (CONCRETE regression witnesses only)
     // ------------------------------------------------------------------------------------
 
     fn check_docstring_result(r: &String) {
@@ -342,17 +373,21 @@ mod harnesses {
         }
     }
 
-    fn check_format_docstring<const N: usize>() {
-        let buf: [u8; N] = kani::any();
-        let s = sym_str(&buf);
+    fn check_format_docstring_concrete(s: &str) {
         let r = format_docstring(s.to_string());
         check_docstring_result(&r);
         std::mem::forget(r);
     }
 
+    /// Two concrete inputs whose dedent width (taken from the ASCII-indented last line) falls
+    /// inside a multi-byte whitespace character of the middle line: U+2003 EM SPACE (3 bytes) and
+    /// U+00A0 NO-BREAK SPACE (2 bytes).  `&line[min_indent..]` panicked on both before /repo
+    /// commit b5df239.  This is a regression test executed by CBMC, not a bounded proof.
     #[kani::proof]
-    #[kani::unwind(8)]
-    fn format_docstring_no_panic() {
-        check_format_docstring::<4>();
+    #[kani::unwind(12)]
+    #[kani::stub(core::slice::memchr::memchr, memchr_naive_stub)]
+    fn format_docstring_regression() {
+        check_format_docstring_concrete("a\n\u{2003}b\n c");
+        check_format_docstring_concrete("a\n\u{a0}b\n c");
     }
 }
